@@ -122,7 +122,8 @@ func init() {
 			return nil
 		},
 		"vpPermuteMaps": func(in *Interp, fr *Frame, args []Value, call *ssa.CallCommon) Value {
-			in.permute = args[0].(*Term).val != 0
+			// iteration order of every map range: 0 insertion order, 1 reversed, 2 rotated by one
+			in.permMode = mustConstInt(args[0], "permute mode")
 			return nil
 		},
 		"vpCheckpoint": func(in *Interp, fr *Frame, args []Value, call *ssa.CallCommon) Value {
@@ -218,8 +219,13 @@ func (in *Interp) assert(cond *Term, label, knownID string, inClass *Term) {
 		}
 		check(tNot(inClass), "")
 	}
-	// continue only where the assertion holds
-	in.assume(cond, "after assert "+label)
+	// continue only where the assertion holds - or, for a listed known finding,
+	// also inside its class (the defect is there to stay; the rest of the harness still runs)
+	if knownID != "" {
+		in.assume(tOr(cond, inClass), "after assert "+label)
+	} else {
+		in.assume(cond, "after assert "+label)
+	}
 }
 
 type obsRec struct {
